@@ -1,27 +1,5 @@
-/* pure.c -- implementation-side driver for the pure (stateless) functions of iodine.
- * Reads a cases file (one case per line, same syntax as ocaml/driver.ml) and prints one
- * canonical result line per case.  Linked against the objects compiled from the
- * snapshot of /repo's working tree. */
-#include <stdio.h>
-#include <stdlib.h>
-#include <string.h>
-#include <stdint.h>
-#include <ctype.h>
-#include <time.h>
-#include <sys/types.h>
-#include <sys/socket.h>
-#include <netinet/in.h>
-#include <arpa/inet.h>
-
-#include "common.h"
-#include "encoding.h"
-#include "dns.h"
-#include "read.h"
-#include "login.h"
-#include "user.h"
-#include "fw_query.h"
-
-#define MAXLINE (1 << 20)
+/* h_c07.c -- C07: the real base32/64/64u/128 encoders and decoders with guard bytes */
+#include "hlib.h"
 #define GUARD 32
 
 static const struct encoder *codec_of(int c)
@@ -34,44 +12,6 @@ static const struct encoder *codec_of(int c)
 	}
 	return NULL;
 }
-
-static size_t unhex(const char *h, unsigned char *out)
-{
-	size_t n = 0;
-	if (h[0] == '-')
-		return 0;
-	while (isxdigit((unsigned char)h[0]) && isxdigit((unsigned char)h[1])) {
-		unsigned v;
-		sscanf(h, "%2x", &v);
-		out[n++] = v;
-		h += 2;
-	}
-	return n;
-}
-
-static void puthex(const unsigned char *b, size_t n)
-{
-	size_t i;
-	if (n == 0) {
-		putchar('-');
-		return;
-	}
-	for (i = 0; i < n; i++)
-		printf("%02x", b[i]);
-}
-
-/* virtual clock used by wrapped time() when linked with --wrap=time */
-time_t verif_now = 1000000;
-time_t __wrap_time(time_t *t);
-time_t __wrap_time(time_t *t)
-{
-	if (t)
-		*t = verif_now;
-	return verif_now;
-}
-
-static char line[MAXLINE];
-static unsigned char in[MAXLINE / 2];
 
 static void do_encode(char *args)
 {
@@ -253,38 +193,15 @@ out:
 	free(data); free(buf); free(dec); free(acc);
 }
 
-static int pure_ext(char *l)
+int handle_line(char *l)
 {
+	if (!strncmp(l, "E ", 2)) { do_encode(l + 2); return 1; }
+	if (!strncmp(l, "D ", 2)) { do_decode(l + 2); return 1; }
+	if (!strncmp(l, "B58 ", 4)) { printf("%d\n", b32_5to8(atoi(l + 4)) & 0xff); return 1; }
+	if (!strncmp(l, "B85 ", 4)) { printf("%d\n", b32_8to5(atoi(l + 4))); return 1; }
 	if (!strncmp(l, "R ", 2)) { do_roundtrip(l + 2, 0); return 1; }
 	if (!strncmp(l, "RU ", 3)) { do_roundtrip(l + 3, 1); return 1; }
 	if (!strncmp(l, "CH ", 3)) { do_chunks(l + 3); return 1; }
 	return 0;
 }
 
-int main(int argc, char **argv)
-{
-	FILE *f = argc > 1 ? fopen(argv[1], "r") : stdin;
-	if (!f) {
-		perror("cases");
-		return 2;
-	}
-	while (fgets(line, sizeof(line), f)) {
-		size_t l = strlen(line);
-		while (l && (line[l - 1] == '\n' || line[l - 1] == '\r'))
-			line[--l] = 0;
-		if (!l || line[0] == '#')
-			continue;
-		if (!strncmp(line, "E ", 2))
-			do_encode(line + 2);
-		else if (!strncmp(line, "D ", 2))
-			do_decode(line + 2);
-		else if (!strncmp(line, "B58 ", 4))
-			printf("%d\n", b32_5to8(atoi(line + 4)) & 0xff);
-		else if (!strncmp(line, "B85 ", 4))
-			printf("%d\n", b32_8to5(atoi(line + 4)));
-		else if (!pure_ext(line))
-			printf("UNKNOWN-CASE\n");
-	}
-	fflush(stdout);
-	return 0;
-}
